@@ -18,7 +18,7 @@ import (
 )
 
 func init() {
-	registerEngine("X", []string{"X1", "X2", "X3", "X4", "X5"}, runEngineX)
+	registerEngine("X", []string{"X1", "X2", "X3", "X4", "X5", "X6"}, runEngineX)
 }
 
 func runEngineX(p *Prog, o *obls) {
@@ -95,6 +95,7 @@ func runEngineX(p *Prog, o *obls) {
 	x3ReturnedAttrs(p, o)
 	x4PerStreamConfig(p, o)
 	x5CacheKeys(p, o)
+	x6PacketIdentity(p, o)
 }
 
 // X2 — attributes travel with the bytes they describe. The Attributes map a reader returns is the place where inner
